@@ -40,6 +40,28 @@ EmitDecode == mode = "decode" => PrintT(ToJson(DecodeVector))
 GroupForms(n) == <<"fill", "fill_zero_then_resize", "fill_other_then_resize">>
                  \o (IF n = 0 THEN <<"fill_other_then_clear">> ELSE <<>>)
 
+\* numInGroup arguments near the limits of the numInGroup type ("all numInGroup
+\* arguments", C17): fill_group_header(g, n) writes the header only, whatever n
+\* is - the entries are not touched - so every count the type can hold is a
+\* legal argument.  Counts are little-endian digit sequences of the width of
+\* the numInGroup member (TLC integers are 32-bit).
+BigCounts(w) ==
+  LET Z(k) == [i \in 1 .. k |-> 0]
+  IN << [i \in 1 .. w |-> 255], <<200>> \o Z(w - 1) >>
+     \o (IF w >= 2 THEN << <<0, 1>> \o Z(w - 2), <<44, 1>> \o Z(w - 2), <<255, 127>> \o Z(w - 2) >> ELSE <<>>)
+     \o (IF w >= 4 THEN << <<0, 0, 1, 0>> \o Z(w - 4), <<112, 17, 1, 0>> \o Z(w - 4), <<0, 0, 0, 128>> \o Z(w - 4) >> ELSE <<>>)
+     \o (IF w = 8 THEN << <<0, 0, 0, 0, 1, 0, 0, 0>>, <<1, 0, 0, 0, 0, 0, 0, 128>> >> ELSE <<>>)
+\* the header fill with numInGroup given as digits
+GroupHeaderFillB(g, nd) ==
+  Put(CompImage(Dim(g), CounterNames, <<BlockLength(g), 0, Len(g.groups), Len(g.data)>>),
+      CompMemberOff(Dim(g), "numInGroup"), Wire(nd))
+BigFills(b, st) ==
+  LET gli == ChildLi(MI, st.li, st.k)
+      g == LDef[gli]
+      at == OpGroupOf(b, st.li, st.ip, st.k)
+      cs == BigCounts(CompMemberW(Dim(g), "numInGroup"))
+  IN [i \in 1 .. Len(cs) |-> [n |-> cs[i], post |-> Overlay(b, GroupHeaderFillB(g, cs[i]), at)]]
+
 \* The API forms through which the value `val` can be given to a <data> member.
 \* Each is documented (dynamic_array_ref reference) to leave the container with
 \* size() = Len(val) and these elements, i.e. the same length prefix and payload:
@@ -70,6 +92,7 @@ StepInfo(st) ==
                   [] st.op = "ghdr" -> GroupForms(Cnt(sh, ChildLi(MI, st.li, st.k), st.ip))
                   [] OTHER -> <<>>,
       n |-> IF st.op = "ghdr" THEN Cnt(sh, ChildLi(MI, st.li, st.k), st.ip) ELSE 0,
+      big |-> IF st.op = "ghdr" THEN BigFills(buf, st) ELSE <<>>,
       ret |-> CASE st.op = "mhdr" -> V0
                 [] st.op = "ghdr" -> OpGroupOf(buf, st.li, st.ip, st.k)
                 [] OTHER -> -1]
